@@ -339,6 +339,14 @@ def _loop(rep, ex: Explorer):
             continue
         n += 1
         news = [e for e in evs if e.kind == "rc2.new"]
+        if not news and not computes and p.outcome[0] == "return":
+            # a family handed back without the solver ever having looked at the hard clauses (they may be unsatisfiable: then
+            # there is no correction set at all, not even the empty one)
+            rv_ = view(p.state, p.outcome[1])
+            empty_ = isinstance(rv_, tuple) and rv_[0] == "list" and not rv_[1]
+            rep.check(False, "MCS.loop", site, "result without a solver call", "every family of correction sets that is returned was found by the MaxSAT solver on the given hard clauses",
+                      extracted=f"returns {'[]' if empty_ else repr(rv_)[:80]} without creating a solver", required="a solver call on the WCNF first", function=site)
+            continue
         if news:
             e = news[0]
             okw = isinstance(e.wcnf, Ref) and e.snap[2] == (("sym", "H"),) and e.snap[3] == (("sym", "S"),)
@@ -386,6 +394,27 @@ def _loop(rep, ex: Explorer):
         # deadline polled before each solver call
         if computes and decided(p, ("truthy", "deadline")) is True:
             rep.check(expired is False, "TIMEOUT.guarded-raise", site, "poll before solving", "the deadline is polled before the solver is called", extracted=f"expired={expired}", required="checked", function=site)
+    # the same entry on a WCNF without soft clauses and with nothing ignored (a base nobody can falsify): the hard clauses may
+    # still be unsatisfiable, so also here every returned family comes out of a solver call
+    def setup_nosoft(I):
+        s, es = _mk(I, RC2, pmaxsat=Sym(("pmaxsat_solver",), "str"))
+        w = I.alloc(HWcnf(hard=[("sym", "H")], soft=[]))
+        kw = {"ignore": I.alloc(HList()), "deadline": Const(None)}
+        fi_ = ex.prog.function(qual)
+        for a_ in (fi_.node.args.posonlyargs + fi_.node.args.args)[4:] + fi_.node.args.kwonlyargs:
+            kw[a_.arg] = Sym(("parameter", a_.arg), "bool")
+        return [s, w], kw
+
+    m = 0
+    for p in ex.run(qual, setup_nosoft, summaries=summ, key="mcsloop-nosoft"):
+        evs = [ev for ev, Q in iter_events(p.events)]
+        if p.outcome[0] != "return":
+            continue
+        m += 1
+        called = any(e.kind in ("rc2.new", "rc2.compute") for e in evs)
+        rv_ = view(p.state, p.outcome[1])
+        rep.check(called, "MCS.loop", site, "no soft clauses, nothing ignored", "every family of correction sets that is returned was found by the MaxSAT solver on the given hard clauses (they may be unsatisfiable: then there is no correction set at all, not even the empty one)",
+                  extracted=(f"returns {repr(rv_)[:80]} without a solver call" if not called else "solver consulted"), required="a solver call on the WCNF first", function=site)
     rep.floor("MCS.loop paths", n, 3)
 
 
